@@ -89,16 +89,6 @@ def isSwitchPoint (cfg : Cfg) (s : State) (t : Nat) : Bool :=
 def excName : Exc → String
   | .keyError => "KeyError" | .thrown => "Thrown" | .runtimeError => "RuntimeError"
 
-/-- what the next primitive action of `t` raises, if anything -/
-def stepRaised (cfg : Cfg) (s : State) (t : Nat) : Option Exc :=
-  match s.ths[t]? with
-  | none => none
-  | some th => match (cfg.code t)[th.pc]? with
-    | none => none
-    | some ins => match exec cfg (cfg.code t) s.sh th t ins.op with
-      | some e => e.raised
-      | none => none
-
 /-- index of the top-level call the instruction at `pc` belongs to -/
 def callIndex (code : Code) (pc : Nat) : Nat :=
   ((code.take (pc + 1)).filter (·.start)).length - 1
@@ -119,6 +109,9 @@ structure Trace where
   overlap : Bool := false     -- two threads were at once between first and last lock operation
   micro : Array Nat := #[]    -- the thread of every primitive step taken
   excl : Bool := false        -- some state on the way violated exclusion
+  removed : Array (Nat × Nat) := #[]   -- thread, call index of every `d.pop(key, None)` on
+                              -- `_documents` with the key of the call that did remove a document
+                              -- (`discard` answers True)
   deriving Inhabited
 
 def Trace.step1 (cfg : Cfg) (tr : Trace) (t : Nat) : Option Trace :=
@@ -129,8 +122,17 @@ def Trace.step1 (cfg : Cfg) (tr : Trace) (t : Nat) : Option Trace :=
       | some e, some th => tr.events.push (t, callIndex (cfg.code t) th.pc, e)
       | _, _ => tr.events
     let both := ((tids s').filter (inLockOps cfg s')).length ≥ 2
+    let rm := match tr.s.ths[t]? with
+      | some th => match (cfg.code t)[th.pc]? with
+        | some i => match i.op with
+          | .popItem .docs (.lit n) =>
+            if tr.s.sh.docs.contains n then tr.removed.push (t, callIndex (cfg.code t) th.pc)
+            else tr.removed
+          | _ => tr.removed
+        | none => tr.removed
+      | none => tr.removed
     some { s := s', events := ev, overlap := tr.overlap || both, micro := tr.micro.push t,
-           excl := tr.excl || exclusionViolated cfg s' }
+           excl := tr.excl || exclusionViolated cfg s', removed := rm }
 
 /-- run `t` to its next switch point (bounded by `fuel` primitive steps) -/
 def runToSwitch (cfg : Cfg) : Nat → Trace → Nat → Trace
